@@ -16,29 +16,31 @@ pub struct PropEntry {
     pub meta: &'static PropMeta,
     pub check: fn(&CheckCtx) -> Option<Found>,
     pub replay: fn(&CheckCtx, &str, serde_json::Value) -> Result<Option<Violation>, String>,
+    /// sub-checks that are pure functions of a generated case on one thread: fuzzable by libFuzzer (thorough tier)
+    pub fuzz: Option<fn(&CheckCtx) -> Vec<crate::fuzz::FuzzSub>>,
 }
 
 pub fn registry() -> Vec<PropEntry> {
     vec![
-        PropEntry { meta: &c03::META, check: c03::check, replay: c03::replay },
-        PropEntry { meta: &c04::META, check: c04::check, replay: c04::replay },
-        PropEntry { meta: &c10::META, check: c10::check, replay: c10::replay },
-        PropEntry { meta: &c11::META, check: c11::check, replay: c11::replay },
-        PropEntry { meta: &c12::META, check: c12::check, replay: c12::replay },
-        PropEntry { meta: &c17::META, check: c17::check, replay: c17::replay },
-        PropEntry { meta: &c18::META, check: c18::check, replay: c18::replay },
-        PropEntry { meta: &c19::META, check: c19::check, replay: c19::replay },
-        PropEntry { meta: &c20::META, check: c20::check, replay: c20::replay },
-        PropEntry { meta: &histprops::C01_META, check: |c| histprops::hist_check(c, &histprops::C01), replay: |_, _, v| histprops::hist_replay(&histprops::C01, v) },
-        PropEntry { meta: &histprops::C02_META, check: |c| histprops::hist_check(c, &histprops::C02), replay: |_, _, v| histprops::hist_replay(&histprops::C02, v) },
-        PropEntry { meta: &histprops::C05_META, check: |c| histprops::hist_check(c, &histprops::C05), replay: |_, _, v| histprops::hist_replay(&histprops::C05, v) },
-        PropEntry { meta: &histprops::C06_META, check: |c| histprops::hist_check(c, &histprops::C06), replay: |_, _, v| histprops::hist_replay(&histprops::C06, v) },
-        PropEntry { meta: &histprops::C07_META, check: |c| histprops::hist_check(c, &histprops::C07), replay: |_, _, v| histprops::hist_replay(&histprops::C07, v) },
-        PropEntry { meta: &histprops::C08_META, check: |c| histprops::hist_check(c, &histprops::C08), replay: |_, _, v| histprops::hist_replay(&histprops::C08, v) },
-        PropEntry { meta: &histprops::C09_META, check: |c| histprops::hist_check(c, &histprops::C09), replay: |_, _, v| histprops::hist_replay(&histprops::C09, v) },
-        PropEntry { meta: &histprops::C13_META, check: |c| histprops::hist_check(c, &histprops::C13), replay: |_, _, v| histprops::hist_replay(&histprops::C13, v) },
-        PropEntry { meta: &histprops::C14_META, check: |c| histprops::hist_check(c, &histprops::C14), replay: |_, _, v| histprops::hist_replay(&histprops::C14, v) },
-        PropEntry { meta: &histprops::C15_META, check: |c| histprops::hist_check(c, &histprops::C15), replay: |_, _, v| histprops::hist_replay(&histprops::C15, v) },
-        PropEntry { meta: &histprops::C16_META, check: |c| histprops::hist_check(c, &histprops::C16), replay: |_, _, v| histprops::hist_replay(&histprops::C16, v) },
+        PropEntry { meta: &c03::META, check: c03::check, replay: c03::replay, fuzz: None },
+        PropEntry { meta: &c04::META, check: c04::check, replay: c04::replay, fuzz: None },
+        PropEntry { meta: &c10::META, check: c10::check, replay: c10::replay, fuzz: None },
+        PropEntry { meta: &c11::META, check: c11::check, replay: c11::replay, fuzz: None },
+        PropEntry { meta: &c12::META, check: c12::check, replay: c12::replay, fuzz: None },
+        PropEntry { meta: &c17::META, check: c17::check, replay: c17::replay, fuzz: Some(c17::fuzz_subs) },
+        PropEntry { meta: &c18::META, check: c18::check, replay: c18::replay, fuzz: Some(c18::fuzz_subs) },
+        PropEntry { meta: &c19::META, check: c19::check, replay: c19::replay, fuzz: None },
+        PropEntry { meta: &c20::META, check: c20::check, replay: c20::replay, fuzz: Some(c20::fuzz_subs) },
+        PropEntry { meta: &histprops::C01_META, check: |c| histprops::hist_check(c, &histprops::C01), replay: |_, _, v| histprops::hist_replay(&histprops::C01, v), fuzz: Some(|_| histprops::hist_fuzz_subs(&histprops::C01)) },
+        PropEntry { meta: &histprops::C02_META, check: |c| histprops::hist_check(c, &histprops::C02), replay: |_, _, v| histprops::hist_replay(&histprops::C02, v), fuzz: Some(|_| histprops::hist_fuzz_subs(&histprops::C02)) },
+        PropEntry { meta: &histprops::C05_META, check: |c| histprops::hist_check(c, &histprops::C05), replay: |_, _, v| histprops::hist_replay(&histprops::C05, v), fuzz: Some(|_| histprops::hist_fuzz_subs(&histprops::C05)) },
+        PropEntry { meta: &histprops::C06_META, check: |c| histprops::hist_check(c, &histprops::C06), replay: |_, _, v| histprops::hist_replay(&histprops::C06, v), fuzz: Some(|_| histprops::hist_fuzz_subs(&histprops::C06)) },
+        PropEntry { meta: &histprops::C07_META, check: |c| histprops::hist_check(c, &histprops::C07), replay: |_, _, v| histprops::hist_replay(&histprops::C07, v), fuzz: Some(|_| histprops::hist_fuzz_subs(&histprops::C07)) },
+        PropEntry { meta: &histprops::C08_META, check: |c| histprops::hist_check(c, &histprops::C08), replay: |_, _, v| histprops::hist_replay(&histprops::C08, v), fuzz: Some(|_| histprops::hist_fuzz_subs(&histprops::C08)) },
+        PropEntry { meta: &histprops::C09_META, check: |c| histprops::hist_check(c, &histprops::C09), replay: |_, _, v| histprops::hist_replay(&histprops::C09, v), fuzz: Some(|_| histprops::hist_fuzz_subs(&histprops::C09)) },
+        PropEntry { meta: &histprops::C13_META, check: |c| histprops::hist_check(c, &histprops::C13), replay: |_, _, v| histprops::hist_replay(&histprops::C13, v), fuzz: Some(|_| histprops::hist_fuzz_subs(&histprops::C13)) },
+        PropEntry { meta: &histprops::C14_META, check: |c| histprops::hist_check(c, &histprops::C14), replay: |_, _, v| histprops::hist_replay(&histprops::C14, v), fuzz: Some(|_| histprops::hist_fuzz_subs(&histprops::C14)) },
+        PropEntry { meta: &histprops::C15_META, check: |c| histprops::hist_check(c, &histprops::C15), replay: |_, _, v| histprops::hist_replay(&histprops::C15, v), fuzz: Some(|_| histprops::hist_fuzz_subs(&histprops::C15)) },
+        PropEntry { meta: &histprops::C16_META, check: |c| histprops::hist_check(c, &histprops::C16), replay: |_, _, v| histprops::hist_replay(&histprops::C16, v), fuzz: Some(|_| histprops::hist_fuzz_subs(&histprops::C16)) },
     ]
 }
